@@ -96,7 +96,7 @@ PURE_FUNCS.update({'np.floor': _math.floor, 'numpy.floor': _math.floor, 'math.fl
 try:
     import numpy as _np
     PURE_FUNCS.update({f'{m_}.{n_}': getattr(_np, n_) for m_ in ('np', 'numpy') for n_ in ('zeros', 'ones', 'empty', 'vstack', 'hstack', 'argmax', 'argmin', 'arange', 'array', 'asarray', 'sort', 'argsort',
-                                                                                            'flatnonzero', 'nonzero', 'where', 'sum', 'max', 'min', 'fromiter', 'clip', 'searchsorted', 'amax', 'amin', 'cumsum', 'unique', 'stack', 'concatenate',
+                                                                                            'flatnonzero', 'nonzero', 'where', 'sum', 'max', 'min', 'fromiter', 'clip', 'searchsorted', 'resize', 'tile', 'repeat', 'full', 'zeros_like', 'ones_like', 'isin', 'diff', 'abs', 'prod', 'power', 'log10', 'rint', 'any', 'all', 'amax', 'amin', 'cumsum', 'unique', 'stack', 'concatenate',
                                                                                             'count_nonzero', 'take_along_axis', 'expand_dims', 'partition', 'equal', 'logical_and', 'logical_not', 'logical_or')})
     STD_CONSTS.update({'np.uint64': _np.uint64, 'np.int32': _np.int32, 'np.newaxis': None, 'numpy.newaxis': None, 'np.int64': _np.int64, 'np.float64': _np.float64, 'np.nan': float('nan'), 'np.inf': float('inf')})
     NDARRAY = _np.ndarray
